@@ -412,12 +412,18 @@ func (s *sim) drawConfig() {
 	cfg.TimeoutPrecommit = ms(100, 600)
 	cfg.TimeoutPrecommitDelta = ms(50, 300)
 	cfg.TimeoutCommit = ms(50, 600)
+	if v := s.p.KnobInt("timeout_commit_ms", envInt("VERIF_TIMEOUT_COMMIT_MS", 0)); v > 0 { // characterisation experiments
+		cfg.TimeoutCommit = time.Duration(v) * time.Millisecond
+	}
 	cfg.SkipTimeoutCommit = false // zero-time progress is forbidden in the bubble (DESIGN 2.9)
 	cfg.CreateEmptyBlocks = true
 	s.csConfig = cfg
 
 	nt := &simnet{s: s}
 	nt.baseLat = time.Duration(1+c.Intn(40)) * time.Millisecond
+	if v := envInt("VERIF_LAT_MS", 0); v > 0 {
+		nt.baseLat = time.Duration(v) * time.Millisecond
+	}
 	if c.Chance(w.netFaults, w.netFaults+1) {
 		nt.jitter = time.Duration([]int{0, 20, 100, 400, 1500}[c.Intn(5)]) * time.Millisecond
 		nt.dropPm = []int{0, 10, 50, 150, 400}[c.Intn(5)]
@@ -561,6 +567,9 @@ func (s *sim) planWorkload() {
 	npar := 0
 	if c.Chance(s.w.paramTx, s.w.paramTx+3) {
 		npar = 1 + c.Intn(3)
+	}
+	if s.p.Knob("no_param_tx", os.Getenv("VERIF_NO_PARAM_TX")) != "" {
+		npar = 0
 	}
 	for i := 0; i < npar; i++ {
 		at := time.Duration(c.Intn(spanMs)) * time.Millisecond
@@ -1248,7 +1257,7 @@ func (s *sim) classifyStall() (oracle, why string) {
 		if rs.LastCommit != nil && rs.LastCommit.HasTwoThirdsMajority() && rs.Height == st.LastBlockHeight+1 {
 			mt := smMedian(rs.LastCommit.MakeCommit(), st.LastValidators)
 			if !mt.After(st.LastBlockTime) {
-				return "liveness_median_time_not_after_last_block", fmt.Sprintf("[every proposal for height %d is invalid: the weighted median %v of n%d's LastCommit (which includes stray nil precommits stamped with the wall clock) is not after the last block time %v, which runs ahead of the clock by TimeIota per block] ", rs.Height, mt, top.id, st.LastBlockTime)
+				return "liveness_median_time_not_after_last_block", fmt.Sprintf("[every proposal for height %d is invalid: the weighted median %v of n%d's LastCommit (which includes stray nil precommits stamped with the wall clock) is not after the last block time %v, which runs ahead of the clock by TimeIota per block; configuration: TimeIotaMS=%d (default 100), TimeoutCommit=%v, wall clock now %v] ", rs.Height, mt, top.id, st.LastBlockTime, st.ConsensusParams.Block.TimeIotaMS, s.csConfig.TimeoutCommit, time.Now().UTC().Format("15:04:05.000"))
 			}
 		}
 	}
@@ -1263,6 +1272,38 @@ func (s *sim) classifyStall() (oracle, why string) {
 				if id, ok := pc.TwoThirdsMajority(); ok && !id.IsZero() {
 					return "liveness_wedged_after_leaving_commit_step", fmt.Sprintf("[n%d holds +2/3 precommits for %X at %d/%d (CommitRound set) but was moved out of RoundStepCommit to %d/%d/%d by +2/3-any votes of a later round; ProposalBlockParts was reset and nothing re-enters the commit] ", n.id, id.Hash, rs.Height, rs.CommitRound, rs.Height, rs.Round, rs.Step)
 				}
+			}
+		}
+	}
+	// (2b) a node sits in RoundStepCommit without (all of) the committed block, and the only honest holders keep it
+	// as their LOCKED/VALID block in a later round, where gossipDataRoutine does not serve it (it serves
+	// rs.ProposalBlockParts only); with the byzantine validators silent the holders cannot finish a round alone
+	for _, n := range s.nodes {
+		if !n.up {
+			continue
+		}
+		rs := n.cs.GetRoundState()
+		if rs.Step != cstypes.RoundStepCommit || rs.ProposalBlockParts == nil || rs.ProposalBlockParts.IsComplete() {
+			continue
+		}
+		hdr := rs.ProposalBlockParts.Header()
+		for _, o := range s.nodes {
+			if o == n || !o.up {
+				continue
+			}
+			ro := o.cs.GetRoundState()
+			if ro.Height != rs.Height {
+				continue
+			}
+			holds := (ro.LockedBlockParts != nil && ro.LockedBlockParts.HasHeader(hdr)) || (ro.ValidBlockParts != nil && ro.ValidBlockParts.HasHeader(hdr))
+			serves := ro.ProposalBlockParts != nil && ro.ProposalBlockParts.HasHeader(hdr)
+			if holds && !serves {
+				pbp := "nil"
+				if ro.ProposalBlockParts != nil {
+					pbp = ro.ProposalBlockParts.Header().String()
+				}
+				return "liveness_commit_step_starved_of_block_parts", fmt.Sprintf("[n%d is in RoundStepCommit of %d/%d with %d of %d parts of block %v; n%d holds that block as its locked/valid block in round %d but its ProposalBlockParts is %s, and gossipDataRoutine only serves rs.ProposalBlockParts to a peer of the same height; the rest of the honest power cannot complete a round without n%d] ",
+					n.id, rs.Height, rs.CommitRound, rs.ProposalBlockParts.Count(), hdr.Total, hdr, o.id, ro.Round, pbp, n.id)
 			}
 		}
 	}
@@ -1327,3 +1368,11 @@ func (s *sim) event(format string, args ...any) {
 }
 
 var smMedian = sm.MedianTime
+
+func envInt(name string, def int) int {
+	var v int
+	if _, err := fmt.Sscanf(os.Getenv(name), "%d", &v); err != nil {
+		return def
+	}
+	return v
+}
